@@ -422,7 +422,6 @@ hung:
 			w.ViolationStack(key, fmt.Sprintf("shutdown (%s) did not complete: a goroutine is parked in WaitClose while the parser is parked in emit (nobody drains the parser) - the terminal was not restored", c.Trigger), c, "Close/Suspend still blocked after 20s", "returns with the terminal restored", clipDump(dump))
 		} else {
 			w.Inconclusive("shutdown-timeout-without-corroboration:" + c.Trigger)
-			os.WriteFile(fmt.Sprintf("/tmp/c04-incon-%d.txt", os.Getpid()), []byte(string(cj)+"\n"+dump), 0o644)
 		}
 	}
 }
